@@ -18,7 +18,7 @@ func init() {
 		Rule:       "for each (template, logical environment) the canonical realisation ([]any, map[string]any, int, float64, string; no pointers, no Drops) is the baseline and 8 (quick) / 24 (thorough) alternative realisations, chosen independently at every node of the value tree, must reproduce its result (bytes, or failure). Five families, each using a representation class only where the statement names it: (1) Drops by value and by pointer at any depth + typed slices, fixed arrays and map[string]T, under generated programs with every tag and filter family; (2) every integer/float width incl. unsigned under print, all comparison operators, case/when and the arithmetic filters; (3) pointers on values reached by variable or property lookup; (4) yaml.MapSlice under lookup and size; (5) []byte under printing and as string-filter receiver. Non-trivial = the alternative realisation differs from the canonical one in at least one node; distinct = distinct (template, realisation descriptor).",
 		Exhaustive: func(string) bool { return false },
 		Assumptions: []string{
-			"json, inspect and type expose the Go representation by design and are not used",
+			"json and inspect are compared across Drops, pointers and typed containers nested in the value (they spell data); across integer widths, []byte and ordered maps they, and type, expose the Go representation by design and are not used",
 			"how often ToLiquid is called is not asserted; struct-vs-map equivalence is not asserted (README: structs have no size)",
 			"integer widths are used only where the statement names them (print, compare, arithmetic), not as indices or loop modifiers",
 		},
@@ -140,6 +140,8 @@ func runC18(c *core.Ctx) {
 		"{{ d | default: 'x' }}{{ nd | default: 'dflt' }}", "{% if d < 3 and d > 1 %}T{% endif %}{% if d <= 2 or nd %}U{% endif %}",
 		"{{ m }}", "{{ objs[0] }}|{{ objs | last }}", "{{ mm }}", "{% for kv in mm %}{{ kv[1] }}{% endfor %}",
 		"{{ objs | sort_natural: 'name' | map: 'id' | join: ',' }}|{{ objs | sort: 'name' | map: 'name' | join: ',' }}|{{ objs | sort: 'id' | map: 'id' | join: '' }}",
+		// json and inspect spell a value as data: a Drop or pointer nested in it is the value it stands for there as well
+		"{{ arr | json }}|{{ holes | json }}|{{ m | json }}|{{ mm | json }}", "{{ objs | json }}|{{ sarr | inspect }}|{{ nested | json }}|{{ d | json }}|{{ nd | json }}|{{ mm.in | inspect }}",
 		// nil inside containers, also as a Drop whose value is nil
 		"{% if holes contains nil %}T{% else %}F{% endif %}|{% if holes contains nd %}T{% else %}F{% endif %}|{{ holes | compact | size }}|{{ holes | size }}", "{% if holes == holes2 %}T{% else %}F{% endif %}{% if holes != holes2 %}N{% endif %}{% if holes[1] == nil %}n{% endif %}{% if holes[1] %}t{% else %}f{% endif %}",
 		"{% if mm.n == nil %}T{% else %}F{% endif %}{% if mm.n %}t{% else %}f{% endif %}{% if mm == mm %}R{% endif %}{% for x in holes %}{% if x == nil %}~{% else %}{{ x }}{% endif %}{% endfor %}", "{% case nd %}{% when nil %}N{% else %}E{% endcase %}{% case holes[1] %}{% when nil %}N{% else %}E{% endcase %}{{ holes | join: '-' }}{{ holes | first }}{{ holes | last }}",
@@ -160,7 +162,7 @@ func runC18(c *core.Ctx) {
 		if !c.Begin("drop-positions:" + src + " env=" + env.String()) {
 			continue
 		}
-		c18Compare(c, e, "drop-positions", src, env, gen.Rep{Drops: true, Typed: i%2 == 0, Pointers: strings.HasPrefix(src, "{{ m") || strings.HasPrefix(src, "{{ objs[0]")}, nAlt, i)
+		c18Compare(c, e, "drop-positions", src, env, gen.Rep{Drops: true, Typed: i%2 == 0, Pointers: strings.HasPrefix(src, "{{ m") || strings.HasPrefix(src, "{{ objs") || strings.HasPrefix(src, "{{ arr | json")}, nAlt, i)
 	}
 	// ---- (2) numeric widths ---------------------------------------------------------------------
 	numT := []string{
